@@ -52,8 +52,32 @@ def _reg(pid, run, theorems=(), translator=("T1",), rule="", level_text="", leve
                 "assumptions": list(assumptions)}
 
 
-_reg("C01", c01.run)
-_reg("C02", c02.run)
+_reg("C01", c01.run, translator=("T1", "T2", "T3"),
+     theorems=["NirVerif.C01.edges_roundtrip", "NirVerif.C01.transport", "NirVerif.C01.nothing_added", "NirVerif.C01.type_tag"],
+     rule="Random graphs over all 17 primitives + nested graphs (depth <= 3), 0-8 nodes, arbitrary names (ASCII, Latin-1, "
+          "CJK, emoji, whitespace, dots, reserved words, '/', NUL), arbitrary edge multisets (cyclic, self-loops, parallel, "
+          "dangling, dotted), 16 dtypes, every hyper-parameter container form, metadata trees; str / pathlib.Path / "
+          "BytesIO targets; strict two-sided comparator (values as numbers/arrays, dtype- and NaN-aware) plus fresh "
+          "construction for the types clause; the model's written tree and read-back graph are compared as well.",
+     level_text="Kernel-checked transport through the file form: every leaf value of the dictionary form, at any path and "
+                "nesting depth, is found at the same path in the dictionary the reader hands to the constructors (nothing "
+                "lost or renamed), no key is added, the type tag selects the same class, and the edge list comes back "
+                "exactly, in order, with duplicates, self-loops, dotted and non-ASCII endpoints. The final step - that the "
+                "constructors re-run on the transported values give an equivalent node - is covered per primitive by "
+                "C05/C19 and for whole graphs by the correspondence run and the oracle; it is not one end-to-end theorem.",
+     level_note="Lean kernel; hand-written models of to_dict/from_dict/write/read and of the h5py contract (create_dataset conversions, item[()], link names, iteration order), validated against the real library and real files on every run.")
+_reg("C02", c02.run,
+     theorems=["NirVerif.C02.array_bits", "NirVerif.C02.scalar_bits", "NirVerif.C02.param_roundtrip", "NirVerif.C02.toDict_field"],
+     rule="Every primitive with array-valued fields x 14 numeric dtypes x rank 0..5 (quick: 260 sampled combinations; "
+          "thorough: all) with zero-length axes, random and special bit patterns (quiet/signalling NaN payloads, signed "
+          "zeros, subnormals, infinities, integer extremes), six memory layouts (C, Fortran, negative/step strides, "
+          "transposed, broadcast view), nesting depth 0..2, str/Path/BytesIO targets; comparator = dtype, shape, tobytes().",
+     level_text="Kernel-checked for the NIR side of the pipeline: an array written with its own dtype and read back with "
+                "item[()] has identical dtype, shape and bytes for every storable dtype, rank (0 incl.), shape and bit "
+                "pattern; this holds for any field of any node at any depth of the written dictionary; to_dict passes "
+                "fields unconverted. PARTIAL by nature: that h5py/libhdf5 store and return the same bits, and that memory "
+                "layout is inert, are contract assumptions exercised only by the correspondence/oracle run.",
+     level_note="Lean kernel; hand-written models of to_dict/from_dict/write/read and of the h5py contract (create_dataset conversions, item[()], link names, iteration order), validated against the real library and real files on every run.")
 _reg("C03", c03.run, translator=("T1", "T2", "T3"),
      theorems=["NirVerif.C03.names", "NirVerif.C03.names_cover", "NirVerif.C03.toDict_keys_generic", "NirVerif.C03.root",
                "NirVerif.C03.edges_layout", "NirVerif.C03.value_layout"],
@@ -68,7 +92,20 @@ _reg("C03", c03.run, translator=("T1", "T2", "T3"),
                 "edge order (empty float64 dataset for no edges); strings, arrays and ints are stored as documented. The "
                 "full tree equality for arbitrary graphs is established by the correspondence run, not by a theorem.",
      level_note="Lean kernel + T1; h5py's create_dataset conversions are a modelled contract validated against real files on every run.")
-_reg("C04", c04.run)
+_reg("C04", c04.run,
+     theorems=["NirVerif.C04.width_invariance", "NirVerif.C04.scalar_width_invariance", "NirVerif.C04.string_decoded",
+               "NirVerif.C04.order_invariance", "NirVerif.C04.optional_defaults"],
+     rule="The 8 shipped artefacts (read, re-write, re-read); files produced by an independent raw-h5py encoder with, per "
+          "dataset, variable/fixed-length x ASCII/UTF-8 x NUL/space-padded strings, integer widths int8..int64 / uint8.."
+          "uint32 / big-endian, contiguous/chunked/gzip storage, creation-order tracking with shuffled member order, fixed-"
+          "width edge arrays, optional members omitted; every choice once alone and in random combinations; the model's "
+          "reader is fed the raw traversal of the same files.",
+     level_text="Kernel-checked: shapes and hyper-parameters stored in ANY integer dtype that holds them (width, signedness, "
+                "byte order) decode to the same integers (two's-complement round trip proved for all widths), member order "
+                "cannot influence keyword binding, and the optional members have the documented defaults in the generated "
+                "field table. Physical string encodings, chunking, compression are invisible to the model's reader by "
+                "construction; that the real reader agrees is established by the correspondence run.",
+     level_note="Lean kernel; hand-written models of to_dict/from_dict/write/read and of the h5py contract (create_dataset conversions, item[()], link names, iteration order), validated against the real library and real files on every run.")
 _reg("C05", c05.run,
      theorems=["NirVerif.C05.affine_linear", "NirVerif.C05.elementwise1", "NirVerif.C05.neuron",
                "NirVerif.C05.io_ndarray", "NirVerif.C05.io_sequence"],
@@ -143,8 +180,27 @@ _reg("C12", c12.run,
                 "infer_types (also when it raises half-way) preserve it, hence any number of inference runs does. Dict and "
                 "file round trips rebuild the graph through the constructor; their histories are covered by the correspondence run.",
      level_note="Lean kernel; hand-written model of __post_init__/infer_types; histories with round trips rely on the oracle.")
-_reg("C13", c13.run)
-_reg("C14", c14.run)
+_reg("C13", c13.run, translator=("T1", "T2"),
+     theorems=["NirVerif.C13.keys", "NirVerif.C13.no_types", "NirVerif.C13.roundtrip"],
+     rule="Graphs of the C01 domain plus consistent graphs with erased (None) annotations: to_dict output checked for "
+          "plain values and documented keys, for shared ids and shared memory with the graph, for strict (type-identical) "
+          "equivalence of from_dict(to_dict(g)), and by mutating the dictionary and re-snapshotting the graph; the model's "
+          "to_dict and round trip are compared with the real ones.",
+     level_text="Kernel-checked: the dictionary of a leaf primitive has exactly the node's fields, metadata and type as keys "
+                "and never the derived types; from_dict(to_dict(n)) re-runs the constructor on exactly the node's own "
+                "field values (None annotations carried). Independence of mutable state cannot be expressed in a model of "
+                "immutable values: it is observed on the real objects by the oracle (ids, shared memory, mutation).",
+     level_note="Lean kernel; hand-written models of to_dict/from_dict/write/read and of the h5py contract (create_dataset conversions, item[()], link names, iteration order), validated against the real library and real files on every run.")
+_reg("C14", c14.run, translator=("T1", "T4", "T5"),
+     theorems=["NirVerif.C14.commute", "NirVerif.C14.inferred_is_stable"],
+     rule="Consistent graphs (C08 domain, plus grouped convolutions for the commutation clause) under 8 (thorough 32) "
+          "operation histories of length 1-4 over {infer_types, write+read, to_dict+from_dict}: after every round trip of an "
+          "inferred graph the carried annotations must be regained, and one more infer_types must give the ground-truth types.",
+     level_text="Kernel-checked corollary of C08: two graphs with the same node names that are both locally consistent with a "
+                "typing tau infer to the same shapes on every node (namely tau) - so inference commutes with any history of "
+                "round trips that preserves local consistency; and an inferred graph is a fixed point of inference. That the "
+                "real round trips preserve local consistency is checked by the oracle on sampled histories.",
+     level_note="Lean kernel; hand-written models of to_dict/from_dict/write/read and of the h5py contract (create_dataset conversions, item[()], link names, iteration order), validated against the real library and real files on every run.")
 _reg("C15", c15.run, translator=("T1", "T3"),
      theorems=["NirVerif.C15.modes", "NirVerif.C15.step_refines", "NirVerif.C15.refines", "NirVerif.C15.read_after_history"],
      rule="Random histories (3-8, thorough 3-15 calls) over write(g_i)/read/read_version on one real path with graphs of "
@@ -158,8 +214,29 @@ _reg("C15", c15.run, translator=("T1", "T3"),
                 "`with` usage the translator extracts from serialization.py (T3); changing them breaks `modes`.",
      level_note="Lean kernel + T3; OS file-handle behaviour, truncation by libhdf5 and caching effects are outside the model "
                 "and exhibited only by the correspondence/oracle run on a real path.")
-_reg("C16", c16.run)
-_reg("C17", c17.run)
+_reg("C16", c16.run,
+     theorems=["NirVerif.C16.leaf_back", "NirVerif.C16.carried", "NirVerif.C16.no_extra_keys", "NirVerif.C16.inert_members",
+               "NirVerif.C16.inert_inference", "NirVerif.C16.inert_infer_types"],
+     rule="Graphs with and without metadata trees (depth 0..4, unicode keys/strings, empty strings, bools, ints, floats, "
+          "arrays, nested and empty dicts) on random subsets of nodes and sub-graphs: metadata compared after read, the raw "
+          "HDF5 trees outside */metadata compared with and without metadata, node types / type check / inference compared.",
+     level_text="Kernel-checked: every leaf of a metadata tree, at any depth on a graph or node at any depth, is returned "
+                "under the same keys and nesting as the equal string/number/array, no key is added; the dataset stored for "
+                "any other entry depends only on that entry (file inertness per member); inference never reads or changes "
+                "metadata. Whole-file inertness and inertness of construction-time types are checked by the oracle.",
+     level_note="Lean kernel; hand-written models of to_dict/from_dict/write/read and of the h5py contract (create_dataset conversions, item[()], link names, iteration order), validated against the real library and real files on every run.")
+_reg("C17", c17.run,
+     theorems=["NirVerif.C17.pure", "NirVerif.C17.pure_history", "NirVerif.C17.read_deterministic"],
+     rule="Graphs of the C01 domain under sequences of 1-6 observers (to_dict, write to BytesIO / path, type check, inputs, "
+          "outputs), a quarter of them made to fail (unwritable, uncopyable, ragged or None metadata values; inconsistent "
+          "types): deep snapshot (bytes of every array, ids of nodes and containers) before and after every call; pairs "
+          "of reads of one file and of two files checked for shared objects, mutated and re-snapshotted.",
+     level_text="In the model observers are functions of an immutable graph value, so the frame condition holds by "
+                "construction (stated as theorems so the obligation is explicit). PARTIAL by nature: the substance of this "
+                "property is the refinement check that the real observers behave like these pure functions - deep "
+                "snapshots of the real objects around every observer call, failing ones included - which only the "
+                "correspondence/oracle run provides.",
+     level_note="Lean kernel; hand-written models of to_dict/from_dict/write/read and of the h5py contract (create_dataset conversions, item[()], link names, iteration order), validated against the real library and real files on every run.")
 _reg("C18", c18.run, translator=("T1", "T2"),
      theorems=["NirVerif.C18.whitelist_documented", "NirVerif.C18.closed", "NirVerif.C18.closed_nonstring",
                "NirVerif.C18.no_type", "NirVerif.C18.mandatory_table", "NirVerif.C18.construct_missing",
